@@ -24,6 +24,9 @@ import time
 import traceback
 
 VERIF = os.path.dirname(os.path.dirname(os.path.abspath(__file__)))
+# self-tests that run the checks against a deliberately broken scratch copy redirect their
+# replay files and evidence away from /verif
+OUT = os.environ.get("VERIF_OUT", VERIF)
 PY = "/venv/bin/python"
 
 ENGINE_OF = {
@@ -201,7 +204,7 @@ def run_check(prop, tier, base_seed, budget=None):
     n_viol = 0
     known_hits = {}
     seen_rules = set()
-    os.makedirs(os.path.join(VERIF, "replays"), exist_ok=True)
+    os.makedirs(os.path.join(OUT, "replays"), exist_ok=True)
     for r in results:
         for v in r["violations"]:
             key = (v["prop"], v["rule"])
@@ -212,7 +215,7 @@ def run_check(prop, tier, base_seed, budget=None):
             small = minimise(eng, sc, prop, v["rule"], budget_s=plan.get("min_budget", 45))
             vv = same_violation(eng, small, prop, v["rule"]) or v
             k = match_known(known, prop, v["rule"], vv.get("detail"), small)
-            path = os.path.join(VERIF, "replays", "%s-%s-%d.json" % (prop, v["rule"].replace("/", "_"), r["seed"]))
+            path = os.path.join(OUT, "replays", "%s-%s-%d.json" % (prop, v["rule"].replace("/", "_"), r["seed"]))
             rp = {"property": prop, "engine": ENGINE_OF[prop], "seed": r["seed"], "tier": tier,
                   "expect": {"rule": v["rule"], "detail": vv.get("detail"), "event": vv.get("i")},
                   "original_events": len(sc["events"]), "minimised_events": len(small["events"]),
@@ -327,8 +330,8 @@ def write_evidence(eng, prop, tier, seed, results, n_viol, known_hits, det, harn
         "wall_s": round(wall, 2),
         "violations": int(n_viol),
     }
-    os.makedirs(os.path.join(VERIF, "evidence"), exist_ok=True)
-    with open(os.path.join(VERIF, "evidence", "%s.json" % prop), "w") as f:
+    os.makedirs(os.path.join(OUT, "evidence"), exist_ok=True)
+    with open(os.path.join(OUT, "evidence", "%s.json" % prop), "w") as f:
         json.dump(ev, f, indent=1, sort_keys=True, default=str)
 
 
